@@ -42,7 +42,7 @@ MAX_FNS = {'np.maximum', 'np.max', 'max', 'np.nanmax', 'np.fmax', 'np.amax'}
 
 def run(ctx: Ctx):
   m = model(ctx)
-  for r in (r1, r2, r3, r4, r5, r6, r7, r10, r11, r12, r13, r14, r15):
+  for r in (r1, r2, r3, r4, r5, r6, r7, r10, r11, r12, r13, r14, r15, r17):
     ctx.guard(r, m)
   ctx.include('R-C01-8', 'merge leaves its operand intact and shares no'
               ' mutable state with it (R-C11-1, R-C11-2): a shard state that'
@@ -1066,11 +1066,138 @@ def r15(ctx: Ctx, m):
   ctx.floor(rule, 1)
 
 
+_NAN_SKIPPING = {'nanmean', 'nanvar', 'nanstd', 'nanmedian', 'nanmin', 'nanmax', 'nanpercentile', 'nanquantile'}
+_NAN_SAFE = {'nanadd', 'where', 'isnan', 'nan_to_num', 'nansum', 'isfinite'}
+
+
+def r17(ctx: Ctx, m):
+  rule = 'R-C01-17'
+  ctx.rule(rule, 'NaN-skipping is carried through merge: a statistic that the accumulation side computes with a'
+           ' NaN-skipping reduction (np.nanmean, np.nanvar, ...) is NaN in every dimension for which a batch has no'
+           ' valid value (its count is 0 there). In merge, such a statistic — of the receiver or of the operand — never'
+           ' reaches a stored field through a plain `+`/`-`: it goes through the NaN-aware helpers'
+           ' (math_utils.nanadd / where / isnan tests). `0 * NaN` is NaN, so a weighted plain sum makes a dimension that'
+           ' is empty in ONE batch or shard NaN for the whole stream, while the same rows in one batch give a number')
+  n = 0
+  for ci in m.classes:
+    fields: dict[str, str] = {}
+    for name in ('new', 'add'):
+      fi = m.method_of(ci, name)
+      if fi is None:
+        continue
+      for c in ast.walk(fi.node):
+        if isinstance(c, ast.Call):
+          for kw in c.keywords:
+            v = kw.value
+            if kw.arg and isinstance(v, ast.Call) and isinstance(v.func, ast.Attribute) and v.func.attr in _NAN_SKIPPING:
+              fields[kw.arg] = v.func.attr
+        if isinstance(c, ast.Assign) and isinstance(c.value, ast.Call) and isinstance(
+            c.value.func, ast.Attribute) and c.value.func.attr in _NAN_SKIPPING:
+          for t in c.targets:
+            if is_self_attr(t):
+              fields[t.attr] = c.value.func.attr
+    if not fields:
+      continue
+    merge = ci.methods.get('merge')
+    if merge is None:
+      continue
+    n += 1
+    names = set(fields) | {f.lstrip('_') for f in fields}
+
+    def safe_call(x):
+      return isinstance(x, ast.Call) and (
+          (isinstance(x.func, ast.Attribute) and x.func.attr in _NAN_SAFE)
+          or (isinstance(x.func, ast.Name) and x.func.id in _NAN_SAFE))
+
+    def scan(expr, nanable, poisoned):
+      """(may be the NaN of an empty dimension, contains an unguarded sum of such a value)."""
+      if safe_call(expr):
+        # the helper's result is NaN only where every operand is; a plain sum nested in an argument still counts
+        p = any(scan(a, nanable, poisoned)[1] for a in list(expr.args) + [k.value for k in expr.keywords])
+        return False, p
+      if isinstance(expr, ast.Attribute) and isinstance(expr.value, ast.Name) and expr.attr in names:
+        return True, False
+      if isinstance(expr, ast.Name):
+        return expr.id in nanable, expr.id in poisoned
+      if isinstance(expr, ast.BinOp) and isinstance(expr.op, (ast.Add, ast.Sub)):
+        ln, lp = scan(expr.left, nanable, poisoned)
+        rn, rp = scan(expr.right, nanable, poisoned)
+        return ln or rn, lp or rp or ln or rn
+      nn = pp = False
+      for ch in ast.iter_child_nodes(expr):
+        if isinstance(ch, (ast.expr_context, ast.operator, ast.unaryop, ast.cmpop, ast.boolop)):
+          continue
+        a, b = scan(ch, nanable, poisoned)
+        nn, pp = nn or a, pp or b
+      if isinstance(expr, ast.Compare):
+        return False, pp
+      return nn, pp
+
+    nanable: set[str] = set()
+    poisoned: set[str] = set()
+    stmts = [x for x in walk_no_nested(merge.node) if isinstance(x, (ast.Assign, ast.AugAssign, ast.AnnAssign))]
+    for _ in range(len(stmts) + 1):
+      before = (len(nanable), len(poisoned))
+      for st in stmts:
+        if st.value is None:
+          continue
+        tgts = st.targets if isinstance(st, ast.Assign) else [st.target]
+        pairs = []
+        for t in tgts:
+          if isinstance(t, ast.Tuple) and isinstance(st.value, ast.Tuple) and len(t.elts) == len(st.value.elts):
+            pairs += list(zip(t.elts, st.value.elts))
+          elif isinstance(t, ast.Tuple):
+            pairs += [(y, st.value) for y in t.elts]
+          else:
+            pairs.append((t, st.value))
+        for y, v in pairs:
+          if isinstance(y, ast.Name):
+            a, b = scan(v, nanable, poisoned)
+            if a:
+              nanable.add(y.id)
+            if b:
+              poisoned.add(y.id)
+      if (len(nanable), len(poisoned)) == before:
+        break
+    bad = None
+    for st in stmts:
+      if st.value is None:
+        continue
+      tgts = st.targets if isinstance(st, ast.Assign) else [st.target]
+      if not any(is_self_attr(t) for t in tgts):
+        continue
+      a, b = scan(st.value, nanable, poisoned)
+      if isinstance(st, ast.AugAssign) and isinstance(st.op, (ast.Add, ast.Sub)) and (
+          a or (is_self_attr(st.target) and st.target.attr in names)):
+        b = True
+      if b:
+        bad = st
+        break
+    what = f'{ci.name}.merge: NaN-skipping statistics {sorted(fields)} combined NaN-aware'
+    if bad is None:
+      ctx.ok(rule, merge, what, merge.node)
+    else:
+      ctx.fail(rule, merge, what,
+               f'{ci.name}.merge stores `{unparse(bad)[:90]}...`: a plain sum with an operand that is NaN wherever one side'
+               f' has no valid value ({sorted(fields)} come from {sorted(set(fields.values()))}); a dimension that is all-NaN'
+               ' in one batch or shard becomes NaN for the whole stream (0 * NaN), although one batch with the same rows'
+               ' gives a number. Combine the terms with math_utils.nanadd / where(count > 0, ...)', node=bad)
+  ctx.floor(rule, 2, n)
+
+
 from mlmverif.selfcheck import B, OK  # noqa: E402
 
 _R = 'aggregates/rolling_stats.py'
 _C = 'aggregates/classification.py'
 VARIANTS = [
+    B('revert-variance-merge-plain-sum', _R,
+      '        math_utils.nanadd(\n            prev_count_ratio * self._var, other_count_ratio * other.var\n        )\n',
+      '        prev_count_ratio * self._var\n        + other_count_ratio * other.var\n', 'R-C01-17'),
+    B('mean-merge-plain-sum', _R,
+      '    self._mean = math_utils.nanadd(self._mean, update)', '    self._mean = self._mean + update', 'R-C01-17'),
+    OK('variance-merge-through-local', _R,
+       '    self._var = (\n        math_utils.nanadd(\n            prev_count_ratio * self._var, other_count_ratio * other.var\n        )\n',
+       '    weighted = math_utils.nanadd(prev_count_ratio * self._var, other_count_ratio * other.var)\n    self._var = (\n        weighted\n'),
     B('default-probabilities-from-the-first-row', 'aggregates/retrieval.py',
       '  for row_true, row_pred, row_prob in zip(y_true, y_pred, y_prob, strict=True):\n    row_prob = (\n        np.ones_like(row_pred, dtype=np.float32)\n        if row_prob is None\n        else np.asarray(row_prob)\n    )',
       '  default_prob = None\n  for row_true, row_pred, row_prob in zip(y_true, y_pred, y_prob, strict=True):\n    if row_prob is None:\n      if default_prob is None:\n        default_prob = np.ones_like(row_pred, dtype=np.float32)\n      row_prob = default_prob\n    else:\n      row_prob = np.asarray(row_prob)',
